@@ -2,11 +2,9 @@ package transport
 
 import (
 	"fmt"
-	"reflect"
 	"strings"
 	"testing"
 	"time"
-	"unsafe"
 
 	"github.com/IrineSistiana/mosdns/v5/zz_verif/vr"
 	"github.com/IrineSistiana/mosdns/v5/zz_verif/vs"
@@ -22,38 +20,6 @@ func distinct(xs []int) int {
 	return len(m)
 }
 
-// connsIn lists the connections held by a container field of the transport,
-// whatever its shape (set, map to anything, slice): read through reflection so
-// that the harness survives a change of the pool's data structure.
-func connsIn(obj any, field string) []*reusableConn {
-	f := reflect.ValueOf(obj).Elem().FieldByName(field)
-	if !f.IsValid() {
-		return nil
-	}
-	f = reflect.NewAt(f.Type(), unsafe.Pointer(f.UnsafeAddr())).Elem()
-	var out []*reusableConn
-	add := func(v reflect.Value) {
-		if !v.CanInterface() {
-			return
-		}
-		if c, ok := v.Interface().(*reusableConn); ok && c != nil {
-			out = append(out, c)
-		}
-	}
-	switch f.Kind() {
-	case reflect.Map:
-		for it := f.MapRange(); it.Next(); {
-			add(it.Key())
-			add(it.Value())
-		}
-	case reflect.Slice, reflect.Array:
-		for i := 0; i < f.Len(); i++ {
-			add(f.Index(i))
-		}
-	}
-	return out
-}
-
 func c08Scenario(name string, o tOpt, d int, allMustSucceed bool) vr.Scenario {
 	var sys *tsys
 	var stalePooled string
@@ -66,22 +32,18 @@ func c08Scenario(name string, o tOpt, d int, allMustSucceed bool) vr.Scenario {
 			vs.Sleep(time.Millisecond)
 			switch t := s.tr.(type) {
 			case *ReuseConnTransport:
-				t.m.Lock()
-				for _, c := range connsIn(t, "idleConns") {
-					select {
-					case <-c.closeNotify:
-						stalePooled = "a closed connection is still in the idle pool"
-					default:
+				withLock(t, "m", func() {
+					for _, c := range elemsIn[*reusableConn](t, "idleConns") {
+						if chanFieldClosed(c, "closeNotify") {
+							stalePooled = "a closed connection is still in the idle pool"
+						}
 					}
-				}
-				for _, c := range connsIn(t, "conns") {
-					select {
-					case <-c.closeNotify:
-						stalePooled = "a closed connection is still registered in the transport"
-					default:
+					for _, c := range elemsIn[*reusableConn](t, "conns") {
+						if chanFieldClosed(c, "closeNotify") {
+							stalePooled = "a closed connection is still registered in the transport"
+						}
 					}
-				}
-				t.m.Unlock()
+				})
 			}
 		}
 		s.run()
